@@ -28,7 +28,18 @@ def main():
             if sig in seen:
                 continue
             seen.add(sig)
-            vs.append(discharge(ob, axioms, timeout_s=20))
+            if '--dump' in sys.argv and sys.argv[sys.argv.index('--dump') + 1] in ob.name:
+                import z3
+                sv = z3.Solver()
+                for ax in axioms:
+                    sv.add(ax)
+                for f in ob.pc:
+                    sv.add(f)
+                sv.add(z3.Not(ob.formula))
+                fn = f'/tmp/dump_{len(vs)}.smt2'
+                open(fn, 'w').write(sv.to_smt2())
+                print('dumped', ob.name, fn, 'pc', len(ob.pc))
+            vs.append(discharge(ob, axioms, timeout_s=int(__import__('os').environ.get('PYVC_TIMEOUT', '20'))))
         merged = merge_verdicts(vs)
         bad = [v for v in merged if v.status != 'discharged']
         print(f'{c.name}: paths={rep.paths} {rep.outcomes} obligations={len(merged)} queries={len(vs)} '
